@@ -681,6 +681,20 @@ func (t *taskState) sharedOp(i int, po *prepOp) {
 			if world.Reslice(tgt.Elem(), r.Intn) > 0 {
 				t.probe("fault:target_slices_cut_keeping_capacity")
 			}
+			// C19: the twin target (same shape without the option) is cut the same way
+			if tw, ok := t.twins[po.op.Target]; ok {
+				r2 := engine.PRNG{S: uint64(po.op.Arg) + 7}
+				world.Reslice(tw.Elem(), r2.Intn)
+			}
+			// the caller changed the value itself: what it holds now is the new reference
+			for k := range t.live {
+				if t.live[k].slot == po.op.Target && t.live[k].ptr == tgt {
+					t.live[k].exp = world.Clone(tgt.Elem())
+					if t.live[k].twin.IsValid() {
+						t.live[k].twinExp = world.Clone(t.live[k].twin.Elem())
+					}
+				}
+			}
 		}
 	case "codec":
 		t.codecOp(i, po)
